@@ -73,6 +73,14 @@ def r1_agreement(rep, src, M):
                 return fterm
             return langs[p]
         Tm, Te = strlang.template_langs(term, alpha, slot, tags, groups)
+        if strlang.rstrip_nodes(term):
+            w = strlang.strip_loss_witness(term, alpha, slot, {'key', 'first', 'cont'})
+            what = '%s / %s: stripping does not touch the value' % (strlang.show(term), fname)
+            if w is not None:
+                rep.fail('C02.R1', site, what, 'the writer strips characters that belong to the field text: in %s the trailing blank(s) inside ⟨@p: … :@p⟩ are '
+                         'deleted, so the re-read value differs' % w, detail={'witness': w}, where=fdump.where)
+            else:
+                rep.ok('C02.R1', site, what, 'no rstrip() of the template can delete a character of the key, the trimmed first line or a continuation line')
         w = Te.not_subset_witness(M.pat(r'(?s:.*)\n'))
         what = '%s / %s: entry ends with a newline' % (strlang.show(term), fname)
         if w is not None:
@@ -264,31 +272,40 @@ def _unb(text):
 
 
 def r3_twins(rep, src, M):
-    f = src.func('deb822:Deb822._skip_useless_lines')
-    rep.saw_func(f)
-    twins = [n for n in ast.walk(f.node) if isinstance(n, ast.If) and norm(n.test) == 'isinstance(line, bytes)']
-    if len(twins) < 2:
-        raise AnalysisError('%s: expected two bytes/str twin branches' % f.site)
-    for t in twins:
-        a = _unb('\n'.join(norm(s) for s in t.body))
-        b = '\n'.join(norm(s) for s in t.orelse)
-        if a == b:
-            rep.ok('C02.R3', f.site, 'bytes/str twins: ' + b.split('\n')[0][:40], 'identical modulo the b prefix')
+    """_skip_useless_lines as a language-level filter: str and bytes lines are treated alike, exactly the lines
+    starting with '#' are dropped (plus, before the first kept line, lines made of CR/LF only), kept lines are
+    yielded unchanged"""
+    F = M.skip_filter()
+    f = M._skip_func
+    comment = M.pat(r'#(?s:.*)')
+    blank = M.pat(r'[\r\n]*')
+    for at_beg in (False, True):
+        pos = 'before the first kept line' if at_beg else 'after the first kept line'
+        s_, b_ = F[(False, at_beg)], F[(True, at_beg)]
+        w = s_['dropped'].equiv_witness(b_['dropped'])
+        if w is None:
+            rep.ok('C02.R3', f.site, 'bytes/str twins, ' + pos, 'the same lines are dropped for both input types')
         else:
-            rep.fail('C02.R3', f.site, 'bytes/str twins: ' + b.split('\n')[0][:40],
-                     'bytes input and str input are filtered differently: %r vs %r' % (a, b), where='%s:%d' % (f.module.relpath, t.lineno))
-    # the comment predicate and the initial-blank predicate
-    txt = norm(f.node)
-    if "line.startswith('#')" in txt:
-        rep.ok('C02.R3', f.site, 'comment marker', "startswith('#') → skipped", nontrivial=False)
+            rep.fail('C02.R3', f.site, 'bytes/str twins, ' + pos, 'bytes input and str input are filtered differently: the line %r is dropped for %s lines only'
+                     % (w[1], 'str' if w[0] == 'left-only' else 'bytes'), where=f.where)
+        want = comment.union(blank) if at_beg else comment
+        w = s_['dropped'].equiv_witness(want)
+        if w is None:
+            rep.ok('C02.R3', f.site, 'comment marker, ' + pos, "dropped = '#'-lines%s" % (' ∪ CR/LF-only lines' if at_beg else ''))
+        elif w[0] == 'right-only':
+            rep.fail('C02.R3', f.site, 'comment marker, ' + pos, 'the line %r is not skipped (lines starting with \'#\' are comments%s)'
+                     % (w[1], '; leading empty lines are ignored' if at_beg else ''), where=f.where)
+        else:
+            rep.fail('C02.R3', f.site, 'comment marker, ' + pos, 'the line %r is dropped although it is neither a comment%s' % (w[1], ' nor an initial empty line' if at_beg else ''),
+                     where=f.where)
+    if all(v['yields_line'] for v in F.values()):
+        rep.ok('C02.R3', f.site, 'yields the line itself', 'every kept line is yielded once, unchanged', nontrivial=False)
     else:
-        rep.fail('C02.R3', f.site, 'comment marker', "lines starting with '#' are not skipped", where=f.where)
-    g = cfg.CFG(f.node)
-    ys = [n for n in g.stmts() if n.kind == 'stmt' and isinstance(n.ast, ast.Expr) and isinstance(n.ast.value, ast.Yield)]
-    if len(ys) != 1 or norm(ys[0].ast.value.value) != 'line':
         rep.fail('C02.R3', f.site, 'yields the line itself', 'the filter alters or duplicates lines', where=f.where)
+    if all(v['flag_ok'] for v in F.values()):
+        rep.ok('C02.R3', f.site, 'position flag', 'cleared at the first kept line, untouched by dropped lines', nontrivial=False)
     else:
-        rep.ok('C02.R3', f.site, 'yields the line itself', 'single `yield line`', nontrivial=False)
+        rep.fail('C02.R3', f.site, 'position flag', 'the "at the beginning" state is not cleared by the first kept line (or is changed by a dropped line)', where=f.where)
 
 
 def r4_accumulation(rep, src, M):
